@@ -8,6 +8,7 @@ import math
 from .common import BaseHooks, V, finite, is_qmat, np, qalg, ref_request, round_sig, sub_rng
 
 PROP = "C19"
+CLOCKS = [[0.0], [1e-3, -3600.0, 1e6], [1e6], [-1.0], [5e-4, 0.0, 0.0, 7200.0], [1e-9]]
 WORLDS_QUICK = ("pkg", "flat")
 WORLDS_THOROUGH = ("pkg", "flat", "pkg_then_flat", "flat_then_pkg")
 BIG = 600   # >= 2*ceil(log(1e-12)/log(0.8)) = 248 iterations for gap ratio 0.8
@@ -109,6 +110,8 @@ def gen_trace(seed, world, tier):
         else:
             steps.append({"k": "rng", "op": "seed", "v": R.randrange(10 ** 6), "client": 1})
     call = {"k": "fn", "fn": fn, "args": [A], "kwargs": kw, "client": 2, "tags": tags}
+    if R.random() < 0.1:
+        call["clock"] = R.choice(CLOCKS)   # stalled / jumping / coarse clock: must not matter
     if R.random() < 0.35:
         call["fault"] = {"jitter": R.randrange(2 ** 31)}
     if R.random() < 0.15 and kw["max_iterations"] > 2:
